@@ -89,18 +89,18 @@ def run(ctx):
 
     thorough = not ctx.quick()
     if not os.environ.get("VERIF_SKIP_TLC"):   # development aid only (mutation runs); never set by registered commands
-        ctx.tlc_check("consensus", "MCWal.tla", "Wal_quick.cfg", timeout=900)
-    if thorough:
-        r = ctx.tlc_check("consensus", "MCWal.tla", "Wal_thorough.cfg", timeout=3000, coverage=True)
-        vlib.require_actions_covered(r)
-        # the properties bite: without "watermark before unlink" TLC must find a lost/revived entry
-        m = ctx.tlc_check("consensus", "MCWal.tla", "Wal_mutant.cfg", timeout=900, expect_violation=True,
-                          label="design mutant: watermark written after the unlinks")
-        if m["ok"]:
-            raise vlib.Broken("vacuity: the design mutant (watermark after unlink) satisfies every property")
+        r = ctx.tlc_check("consensus", "MCWal.tla", "Wal_quick.cfg", timeout=900, coverage=thorough)
+        if thorough:
+            vlib.require_actions_covered(r)
+            ctx.tlc_check("consensus", "MCWal.tla", "Wal_thorough.cfg", timeout=3000)
+            # the properties bite: without "watermark before unlink" TLC must find a lost/revived entry
+            m = ctx.tlc_check("consensus", "MCWal.tla", "Wal_mutant.cfg", timeout=900, expect_violation=True,
+                              label="design mutant: watermark written after the unlinks")
+            if m["ok"]:
+                raise vlib.Broken("vacuity: the design mutant (watermark after unlink) satisfies every property")
 
-    nruns = 10 if thorough else 2
-    depth = 40000 if thorough else 3000   # model actions per simulation run (~40 per behaviour)
+    nruns = 5 if thorough else 3
+    depth = 16000 if thorough else 3000   # model actions per simulation run (~36 per behaviour)
     behaviours = []
     for i in range(nruns):
         behaviours += ctx.tlc_simulate("consensus", "WalMBT.tla", "Wal_sim.cfg", depth=depth,
